@@ -110,3 +110,13 @@ where
     let (read, write) = stream.split();
     FramedIo::new(Box::new(read), Box::new(write))
 }
+
+#[allow(unused)]
+#[cfg(zmq_verif)]
+fn make_framed<T>(stream: T) -> FramedIo
+where
+    T: zmq_simrt::net::IntoHalves,
+{
+    let (read, write) = stream.into_halves();
+    FramedIo::new(Box::new(read), Box::new(write))
+}
